@@ -260,8 +260,16 @@ fn case_strategy() -> impl Strategy<Value = Case> {
     ];
     let apex_rec = prop_oneof![3 => any::<u8>().prop_map(Rec::Soa), 3 => tgt().prop_map(Rec::Ns), 1 => any::<u8>().prop_map(Rec::A)];
     (
-        prop_oneof![Just(MName { labels: vec![b"test".to_vec()] }), Just(MName { labels: vec![b"z".to_vec(), b"test".to_vec()] }), Just(MName::root())],
-        prop_oneof![5 => Just(mr::C_IN), 2 => Just(mr::C_CH), 1 => Just(mr::C_HS)],
+        // (apexes that are themselves wildcard names, and a class that is neither IN, CH nor HS)
+        prop_oneof![
+            4 => Just(MName { labels: vec![b"test".to_vec()] }),
+            4 => Just(MName { labels: vec![b"z".to_vec(), b"test".to_vec()] }),
+            3 => Just(MName::root()),
+            1 => Just(MName { labels: vec![b"*".to_vec(), b"test".to_vec()] }),
+            1 => Just(MName { labels: vec![b"*".to_vec()] }),
+            1 => Just(MName { labels: vec![b"a".to_vec(), b"*".to_vec(), b"test".to_vec()] }),
+        ],
+        prop_oneof![10 => Just(mr::C_IN), 4 => Just(mr::C_CH), 2 => Just(mr::C_HS), 1 => Just(300u16)],
         any::<bool>(),
         prop::collection::vec(apex_rec, 0..4),
         prop::collection::vec((rel(), rec), 0..25),
